@@ -47,6 +47,14 @@ class Prop(common.PropertyCheck):
             yield {'N': rng.choice([3, 7, 40]), 'D': rng.randrange(3, 7), 'data': rng.choice(['spread', 'modal', 'ties']),
                    'cont': ['sample', 'sample_rfi', 'sample_reordered'][i % 3], 'chform': ['perm', 'list', 'zigzag', 'repeat'][i % 4], 'seed': rng.randrange(1 << 30), 'reuse': True}
 
+        # relative dispersions do not depend on the units: tiny and huge magnitudes; channels without signal (0/0 is not a number)
+        for i in range(self.budget(24, 300)):
+            yield {'N': rng.choice([7, 40, 400]), 'D': rng.randrange(2, 5), 'data': ['spread', 'modal', 'spread'][i % 3], 'cont': 'array_float',
+                   'chform': ['none', 'pos', 'list', 'perm'][i % 4], 'seed': rng.randrange(1 << 30), 'scale': [1e-12, 1e-9, 1e12, 1e-15][i % 4]}
+        for i in range(self.budget(12, 100)):
+            yield {'N': rng.choice([7, 40]), 'D': rng.randrange(2, 5), 'data': 'zeros', 'cont': ['array_float', 'array_int', 'sample'][i % 3],
+                   'chform': ['none', 'pos0', 'list', 'perm'][i % 4], 'seed': rng.randrange(1 << 30)}
+
     def run_big(self, case):
         """event counts around multiples of 2**16 (block-wise implementations): float reference with exact summation"""
         r = np.random.RandomState(case['seed'] % (1 << 31))
@@ -90,6 +98,12 @@ class Prop(common.PropertyCheck):
         elif kind == 'negative':
             # signed data centred below zero (background-subtracted / compensated values)
             ev = r.randint(-900, 120, size=(N, D))
+        elif kind == 'zeros':
+            # a channel without signal: every value zero (first channel), mostly zeros (second)
+            ev = r.randint(1, 1000, size=(N, D))
+            ev[:, 0] = 0
+            if D > 1:
+                ev[: max(1, (4 * N) // 5), 1] = 0
         elif kind == 'bright':
             # a 16-bit instrument with a bright channel: central values above half of the container's maximum
             ev = r.randint(40000, 65535, size=(N, D))
@@ -105,7 +119,9 @@ class Prop(common.PropertyCheck):
                 d = (ev * 30).astype(np.int16) if kind == 'negative' else \
                     ev.astype(np.uint16) if kind == 'bright' or r.rand() < 0.5 else (ev // 8).astype(np.uint8) if r.rand() < 0.5 else (ev * 30).astype(np.int16)
             else:
-                d = ev.astype(np.int64) if cont == 'array_int' else ev.astype(np.float64) + r.rand(N, D) * (0 if kind in ('ties', 'const', 'modal', 'bright') else 1)
+                d = ev.astype(np.int64) if cont == 'array_int' else ev.astype(np.float64) + r.rand(N, D) * (0 if kind in ('ties', 'const', 'modal', 'bright', 'zeros') else 1)
+                if case.get('scale') and cont == 'array_float':
+                    d = d * case['scale']            # the same data in other units (very small / very large magnitudes)
         else:
             spec = {'version': 'FCS3.0', 'delim': '/', 'datatype': 'I', 'byteord': '1,2,3,4', 'widths': [16] * D, 'ranges': [top] * D,
                     'events': [[int(min(v, top - 1)) for v in row] for row in ev], 'names': ['FSC-H', 'FL1-H', 'FL2-H', 'FL3-H', 'FL4-H', 'Time'][:D],
@@ -231,6 +247,9 @@ class Prop(common.PropertyCheck):
             for st, w in want.items():
                 got = impl['res'][st][j]
                 if w is None:
+                    # 0/0: the quotient of the definition has no value
+                    if ((st == 'cv' and var == 0) or (st == 'rcv' and q75 == q25)) and not math.isnan(got):
+                        return '%s of channel %d is %r, the definition gives 0/0 (not a number) (n=%d, data %s)' % (st, j, got, n, case['data'])
                     continue
                 # single-precision samples: NumPy reduces float32 data in float32 (documented NumPy behaviour, relative error ~1e-7 per value)
                 if not close(got, w, 5e-6 if impl.get('single_precision') else 1e-9):
